@@ -191,6 +191,7 @@ type Exit struct {
 	St        *State
 	Results   []ast.Expr
 	Class     string
+	BoolRes   int8 // value of the function's only bool result at this exit (isTrue/isFalse, 0 unknown)
 	ErrOrigin *Origin // the call whose error is returned directly (return f() / return err with err := f())
 	OkImplies map[Tag]bool
 	FailImpl  map[Tag]bool
@@ -242,6 +243,11 @@ type Summary struct {
 	May       map[Tag]bool
 	HasOk     bool
 	HasFail   bool
+	// BoolIdx: index of the function's only bool result (-1: none). MustTrue / MustFalse: what holds on every
+	// exit that may return true / false there (an exit whose value is not known counts for both).
+	BoolIdx   int
+	MustTrue  map[Tag]bool
+	MustFalse map[Tag]bool
 }
 
 // AssignPoint is a classified assignment with the state before it.
@@ -399,11 +405,11 @@ func (sp *Spec) calleeSummary(callees []*types.Func, depth int) *Summary {
 		s := sp.summary(c, depth)
 		if s == nil {
 			// unknown repo callee: nothing is guaranteed
-			s = &Summary{MustAll: map[Tag]bool{}, MustOk: map[Tag]bool{}, MustFail: map[Tag]bool{}, May: map[Tag]bool{}, HasOk: true, HasFail: true}
+			s = &Summary{MustAll: map[Tag]bool{}, MustOk: map[Tag]bool{}, MustFail: map[Tag]bool{}, May: map[Tag]bool{}, HasOk: true, HasFail: true, BoolIdx: -1}
 		}
 		n++
 		if out == nil {
-			out = &Summary{MustAll: cp(s.MustAll), MustOk: cp(s.MustOk), MustFail: cp(s.MustFail), May: cp(s.May), HasOk: s.HasOk, HasFail: s.HasFail}
+			out = &Summary{MustAll: cp(s.MustAll), MustOk: cp(s.MustOk), MustFail: cp(s.MustFail), May: cp(s.May), HasOk: s.HasOk, HasFail: s.HasFail, BoolIdx: -1}
 			continue
 		}
 		out.MustAll = inter(out.MustAll, s.MustAll)
@@ -456,6 +462,7 @@ type runner struct {
 	results    []types.Object // named results (nil entries when unnamed)
 	nres       int
 	errIdx     int
+	boolIdx    int
 	caseTag    map[ast.Expr]ast.Expr // case value -> switch tag (nil tag: boolean switch)
 	selectComm map[ast.Stmt]bool     // communication statements of select clauses (conditional)
 	loops      map[ast.Node]bool
@@ -467,7 +474,7 @@ type runner struct {
 }
 
 func (sp *Spec) run(pkg *packages.Package, ft *ast.FuncType, body *ast.BlockStmt, g *cfg.CFG, depth int, init *State) *Result {
-	r := &runner{sp: sp, pkg: pkg, info: pkg.TypesInfo, ftype: ft, depth: depth, caseTag: map[ast.Expr]ast.Expr{}, selectComm: map[ast.Stmt]bool{}, origins: map[*ast.CallExpr]*Origin{}, res: &Result{}, errIdx: -1}
+	r := &runner{sp: sp, pkg: pkg, info: pkg.TypesInfo, ftype: ft, depth: depth, caseTag: map[ast.Expr]ast.Expr{}, selectComm: map[ast.Stmt]bool{}, origins: map[*ast.CallExpr]*Origin{}, res: &Result{}, errIdx: -1, boolIdx: -1}
 	r.inline = sp.nextInline
 	sp.nextInline = 0 // nested runs (summaries, literals) are context-free unless the caller arms it again
 	if ft.Results != nil {
@@ -485,6 +492,15 @@ func (sp *Spec) run(pkg *packages.Package, ft *ast.FuncType, body *ast.BlockStmt
 				r.results = append(r.results, obj)
 				if t := r.info.TypeOf(fld.Type); t != nil && types.Identical(t, types.Universe.Lookup("error").Type()) {
 					r.errIdx = i
+				}
+				if t := r.info.TypeOf(fld.Type); t != nil {
+					if bt, ok := t.Underlying().(*types.Basic); ok && bt.Kind() == types.Bool {
+						if r.boolIdx == -1 {
+							r.boolIdx = i
+						} else {
+							r.boolIdx = -2 // more than one
+						}
+					}
 				}
 				i++
 			}
@@ -846,11 +862,13 @@ func (r *runner) refine(cond ast.Expr, branch bool, st *State) {
 			}
 			if or := st.Def[o]; or != nil {
 				r.boolEvent(or, branch, st)
+				r.boolSum(or, st.DefIdx[o], branch, st)
 			}
 		}
 	case *ast.CallExpr:
 		if or := r.origins[x]; or != nil {
 			r.boolEvent(or, branch, st)
+			r.boolSum(or, 0, branch, st)
 		}
 		// errors.Is / errors.As matched: the failure is recognised as a specific condition and handled
 		if f := core.Callee(r.info, x); branch && f != nil && f.Pkg() != nil && (f.Pkg().Path() == "errors" || f.Pkg().Path() == "github.com/pkg/errors") && (f.Name() == "Is" || f.Name() == "As") && len(x.Args) == 2 {
@@ -875,6 +893,21 @@ func (r *runner) boolEvent(o *Origin, v bool, st *State) {
 		if !strings.HasPrefix(t, "-") {
 			r.addTag(st, p+t)
 		}
+	}
+}
+
+// boolSum: the condition tests the bool result of a call whose body was analysed: what every exit returning
+// that value has established holds from here on.
+func (r *runner) boolSum(o *Origin, idx int, v bool, st *State) {
+	if o.Sum == nil || o.Sum.BoolIdx != idx {
+		return
+	}
+	m := o.Sum.MustFalse
+	if v {
+		m = o.Sum.MustTrue
+	}
+	for t := range m {
+		r.addTag(st, t)
 	}
 }
 
@@ -1219,6 +1252,9 @@ func (r *runner) call(b *cfg.Block, c *ast.CallExpr, st *State, valueUsed bool) 
 					}
 					if v := r.exprNil(a, st); v != 0 {
 						seed.Nil[params[i]] = v
+					}
+					if cst := core.ConstObj(r.info, a); cst != nil {
+						seed.Eq[params[i]] = cst
 					}
 					if id, ok := ast.Unparen(a).(*ast.Ident); ok {
 						if src := r.info.Uses[id]; src != nil {
@@ -1669,6 +1705,26 @@ func (r *runner) exit(ret *ast.ReturnStmt, pos token.Pos, st *State) {
 			}
 		}
 	}
+	if r.boolIdx >= 0 && r.boolIdx < len(ex.Results) && (ret == nil || len(ret.Results) != 1 || r.nres == 1) {
+		e := ast.Unparen(ex.Results[r.boolIdx])
+		if v := core.ConstVal(r.info, e); v != nil && v.Kind() == constant.Bool {
+			if constant.BoolVal(v) {
+				ex.BoolRes = isTrue
+			} else {
+				ex.BoolRes = isFalse
+			}
+		} else if ret != nil && len(ret.Results) > 0 {
+			if known, val := r.condValue(e, st); known {
+				if val {
+					ex.BoolRes = isTrue
+				} else {
+					ex.BoolRes = isFalse
+				}
+			}
+		} else if o := r.results[r.boolIdx]; o != nil {
+			ex.BoolRes = st.Bool[o]
+		}
+	}
 	if !r.record {
 		return
 	}
@@ -1729,6 +1785,27 @@ func (r *runner) summarise() *Summary {
 				s.MustFail, s.HasFail = m, true
 			} else {
 				s.MustFail = inter(s.MustFail, m)
+			}
+		}
+	}
+	s.BoolIdx = -1
+	if r.boolIdx >= 0 {
+		s.BoolIdx = r.boolIdx
+		hasT, hasF := false, false
+		for _, ex := range r.res.Exits {
+			if ex.BoolRes != isFalse {
+				if !hasT {
+					s.MustTrue, hasT = cp(ex.St.Must), true
+				} else {
+					s.MustTrue = inter(s.MustTrue, ex.St.Must)
+				}
+			}
+			if ex.BoolRes != isTrue {
+				if !hasF {
+					s.MustFalse, hasF = cp(ex.St.Must), true
+				} else {
+					s.MustFalse = inter(s.MustFalse, ex.St.Must)
+				}
 			}
 		}
 	}
